@@ -97,6 +97,10 @@ def run(ctx, replay_case):
                 msgs += [pr[0][1], pr[1][1]]
         if msgs:
             streams.append(msgs)
+    # a failure response whose code equals the command code of its parameterless command: two packets with identical bytes
+    for ccv in (0x181, 0x17C, 0x144):
+        twin = bytes.fromhex("80010000000a") + ccv.to_bytes(4, "big")
+        streams.insert(rnd.randrange(len(streams) + 1), [twin, twin])
     for msgs in streams:
         data = b"".join(msgs)
         ops.append(("FRONT", "hex", render_hex(data, rnd)))
@@ -117,6 +121,9 @@ def run(ctx, replay_case):
         for _ in range(rnd.choice([1, 2, 3, 5])):
             n = rnd.choice([0, 3, 4, 9, 10, 11, 12, 20, 33])
             ps.append(payload(n, n - rnd.choice([0, 0, 0, 1, 2, 3, 4, 4, 5, 7, 8, n]) if rnd.random() < 0.8 else n + rnd.randrange(1, 9)))
+        if rnd.random() < 0.3:           # the same payload twice in a row (a repeated command, or a reply equal to its command)
+            j = rnd.randrange(len(ps))
+            ps.insert(j, ps[j])
         ops.append(("TRIM", ps, rnd.choice(["ip", "eth"])))
     impl = core.run_impl(ops)
     model = core.run_model([core.op_line(o) for o in ops])
